@@ -19,6 +19,7 @@ class Prop:
     trusted = []             # extra trusted-base lines
     model_files = []         # Coq files the property's theorems are about (informational)
     rule = ""                # how cases are generated / what makes one non-trivial
+    annotate = None          # optional: (case, impl_lines) -> case for the model (observed scheduler choices)
 
     # ---- to override ----
     def probe(self, ctx):
@@ -100,7 +101,7 @@ def run_replay(prop, path):
         print("harness does not build:\n" + hlog[-1500:])
         return 2
     ctx.probe_data = prop.probe(ctx)
-    impl, model, problems = core.run_both(prop.pkg, cases, prop.pid + "_replay")
+    impl, model, problems = core.run_both(prop.pkg, cases, prop.pid + "_replay", annotate=prop.annotate)
     bad = 0
     for c in cases:
         il = impl.get(c.id, [])
@@ -173,7 +174,7 @@ def run(prop, tier, seed):
         except Exception as ex:   # the probe itself talks to the implementation
             broken.append("probe failed: %r" % (ex,))
         cases = corpus_cases(pid) + prop.gen(ctx.rng, n, ctx)
-        impl, model, problems = core.run_both(prop.pkg, cases, pid)
+        impl, model, problems = core.run_both(prop.pkg, cases, pid, annotate=prop.annotate)
         for p in problems:
             broken.append("correspondence run: " + p)
         diffs = core.diff_cases(cases, impl, model, prop.canon)
@@ -232,13 +233,13 @@ def run(prop, tier, seed):
         c, f = real_fail[0]
 
         def still_fails(cc):
-            i2, m2, _ = core.run_both(prop.pkg, [cc], pid + "_shrink")
+            i2, m2, _ = core.run_both(prop.pkg, [cc], pid + "_shrink", annotate=prop.annotate)
             return bool(prop.oracle(cc, i2.get(cc.id, [])))
         try:
             small = core.shrink(c, still_fails) if len(c.ops) > 3 else c
         except Exception:
             small = c
-        i2, m2, _ = core.run_both(prop.pkg, [small], pid + "_shrink")
+        i2, m2, _ = core.run_both(prop.pkg, [small], pid + "_shrink", annotate=prop.annotate)
         p = core.write_replay(pid, seed, "oracle", replay_body(prop, small, "property oracle fails: " + f,
                                                               i2.get(small.id), m2.get(small.id)))
         violations.append((f, p, True))
@@ -252,7 +253,7 @@ def run(prop, tier, seed):
                 c0 = diffs[0][0]
 
                 def still_differs(cc):
-                    i2, m2, _ = core.run_both(prop.pkg, [cc], pid + "_shrink")
+                    i2, m2, _ = core.run_both(prop.pkg, [cc], pid + "_shrink", annotate=prop.annotate)
                     return bool(core.diff_cases([cc], i2, m2, prop.canon))
                 try:
                     small = core.shrink(c0, still_differs) if len(c0.ops) > 3 else c0
@@ -264,7 +265,7 @@ def run(prop, tier, seed):
             except Exception:
                 pass
             if search_cases:
-                i3, m3, _ = core.run_both(prop.pkg, search_cases, pid + "_search")
+                i3, m3, _ = core.run_both(prop.pkg, search_cases, pid + "_search", annotate=prop.annotate)
                 for c in search_cases:
                     fl = prop.oracle(c, i3.get(c.id, []))
                     fl = [f for f in fl if prop.classify(c, f) not in kf]
